@@ -332,6 +332,15 @@ class MReporter(object):
             })
         return rep_method
 
+    def cleanup_error(self, exception):
+        """a teardown error: there is no task object to forward by name,
+        send the failure itself (picklable, like the failure of a task)
+        """
+        self.runner.result_q.put({
+            'cleanup_error': exception,
+            'reporter': 'cleanup_error',
+        })
+
     def complete_run(self):
         """ignore this on MReporter"""
         pass
@@ -487,6 +496,9 @@ class MRunner(Runner):
 
                 if 'exit' in result:
                     raise result['exit'](result['exception'])
+                if 'cleanup_error' in result:
+                    self.reporter.cleanup_error(result['cleanup_error'])
+                    continue
                 node = task_dispatcher.nodes[result['name']]
                 task = node.task
                 if 'reporter' in result:
@@ -520,6 +532,9 @@ class MRunner(Runner):
         while not result_q.empty():  # safe because subprocess joined
             result = result_q.get()
             assert 'reporter' in result
+            if 'cleanup_error' in result:
+                self.reporter.cleanup_error(result['cleanup_error'])
+                continue
             task = task_dispatcher.tasks[result['name']]
             getattr(self.reporter, result['reporter'])(task)
 
